@@ -188,7 +188,7 @@ func RoundTrip(name string, t reflect.Type, v reflect.Value) ev.M {
 			for i := range l {
 				r[len(l)-1-i] = l[i]
 			}
-			if canon(r) == m["vs"] && canon(d2) != m["vs"] {
+			if canon(r) == m["vs"] {
 				m["rev"] = true
 			}
 		}
@@ -224,7 +224,7 @@ func Drive(w *ev.Writer, o Opts) {
 	PerturbRng = rand.New(rand.NewSource(o.Seed + 5))
 	per := 12
 	if o.Tier == "thorough" {
-		per = 200
+		per = 1000
 	}
 	for i, name := range Types() {
 		if i%o.Shards != o.Shard {
